@@ -8,7 +8,7 @@
       item {"k":"cp","l":[s…]}   -> {"cp":s}
       item {"k":"search","s":s}  -> {"bad":bool}
     {"m":"C20.run","cfg":{…,"store0":[[key,[msgs]]…]},"missing":[paths],"script":[reply|null …],"reqs":[item…]}
-      item = request object | {"op":"set"|"append","key":k,"msgs":[…]} | {"op":"del","key":k} | {"op":"take","key":k,"n":n}
+      item = request object | {"op":"set"|"append","key":k,"msgs":[…]} | {"op":"del","key":k} | {"op":"take","key":k,"n":n} | {"op":"redact","key":k}
              | {"op":"swap","store":[[key,[msgs]]…]} | {"op":"proc","i":n} | {"op":"restart"} | {"op":"evict","key":k}
       (`script` is indexed by the ordinal of the request among the requests)
       -> {"resps":[… one per item, {"r":"op"} for operations],"store":[[key,[msgs]]…],"loads":[…],
@@ -101,6 +101,15 @@ def storeOfJson (j : Json) : Except String (List (Str × List Json)) := do
       pure (ks.toList, msgs.toList)
     | _ => throw "bad store entry"
 
+/-- an operator blanks the text of a message: `content` (a string) becomes as many `#`. -/
+def redactMsg (m : Json) : Json :=
+  match m with
+  | .obj _ =>
+    match m.getObjVal? "content" with
+    | .ok (.str c) => m.setObjVal! "content" (.str (String.ofList (List.replicate c.toList.length '#')))
+    | _ => m
+  | _ => m
+
 def opOfJson (j : Json) : Except String (Op Json) := do
   match j.getObjVal? "op" with
   | .ok (.str o) =>
@@ -115,6 +124,7 @@ def opOfJson (j : Json) : Except String (Op Json) := do
     | "take" =>
       let n ← (← j.getObjVal? "n").getNat?
       pure (.ext (← strOf j "key") (fun v => v.map (·.take n)))
+    | "redact" => pure (.ext (← strOf j "key") (fun v => v.map (·.map redactMsg)))
     | "swap" => pure (.swap (← storeOfJson (← j.getObjVal? "store")))
     | "proc" => pure (.proc (← (← j.getObjVal? "i").getNat?))
     | "restart" => pure .restart
